@@ -227,8 +227,10 @@ Example spec_file_read_needs_pcs_followed :
   | _ => False
   end.
 Proof.
-  cbv zeta. repeat split; try (vm_compute; reflexivity); try discriminate.
-  vm_compute. discriminate.
+  cbv zeta.
+  split; [vm_compute; reflexivity|]. split; [discriminate|]. split; [vm_compute; discriminate|].
+  split; [vm_compute; reflexivity|]. split; [vm_compute; reflexivity|].
+  split; [vm_compute; reflexivity|]. vm_compute. reflexivity.
 Qed.
 
 (** * The hypotheses are satisfiable *)
@@ -253,10 +255,10 @@ End SpecReadInstance.
 Example spec_file_read_by_model_instance :
   let f := spec_encode_file SpecReadInstance.fl SpecReadInstance.xml in
   len f = 2048 /\
-  exists rs d' xo,
-    reader_open (dev_init f None) = (d', Ok (rs, mkHeader 1 0 2048 xo 6 1024, SpecReadInstance.xml)) /\
+  exists rs d',
+    reader_open (dev_init f None) = (d', Ok (rs, mkHeader 1 0 2048 1096 6 1024, SpecReadInstance.xml)) /\
     pr_inv 1024 f rs /\
-    Forall2 (reads_fsection rs xo) SpecReadInstance.fl (spec_layout_offsets SpecReadInstance.fl 6).
+    Forall2 (reads_fsection rs 1096) SpecReadInstance.fl (spec_layout_offsets SpecReadInstance.fl 6).
 Proof.
   cbv zeta. split; [vm_compute; reflexivity|].
   assert (Hlen : len (spec_encode_file SpecReadInstance.fl SpecReadInstance.xml) = 2048)
@@ -267,7 +269,10 @@ Proof.
   - vm_compute; discriminate.
   - vm_compute; reflexivity.
   - rewrite Hlen. reflexivity.
-  - rewrite Hlen in H. exists rs, d', _. exact H.
+  - rewrite Hlen in H.
+    assert (Hxo : phys_of_log (xml_start 48 SpecReadInstance.fl (len SpecReadInstance.xml)) = 1096)
+      by (vm_compute; reflexivity).
+    rewrite Hxo in H. exists rs, d'. exact H.
 Qed.
 
 Print Assumptions spec_file_read_by_model.
